@@ -124,6 +124,10 @@ pub fn bursts() -> Vec<Burst> {
     v.push(mk("part2-vs-privmsg2", base_cfg(), 3, users3(), vec![], two.clone(), vec![(0, vec!["PART #a,#b"]), (1, vec!["PRIVMSG #a,#b :x"])]));
     v.push(mk("join2-vs-names2", base_cfg(), 3, users3(), vec![], vec![(1, "JOIN #a,#b")], vec![(0, vec!["JOIN #a,#b"]), (1, vec!["NAMES #a,#b"])]));
     v.push(mk("kick2-vs-privmsg2", base_cfg(), 3, users3(), vec![], vec![(0, "JOIN #a"), (1, "JOIN #a"), (2, "JOIN #a")], vec![(0, vec!["KICK #a bob,carol"]), (1, vec!["PRIVMSG #a,carol :x"])]));
+    // the effect of a KICK and its announcement are one step: the victim's re-JOIN (or a
+    // newcomer's JOIN) comes before both or after both
+    v.push(mk("kick-vs-rejoin", base_cfg(), 3, users3(), vec![], chan3.clone(), vec![(0, vec!["KICK #c bob :out"]), (1, vec!["JOIN #c"])]));
+    v.push(mk("kick-vs-join", base_cfg(), 3, users3(), vec![], vec![(0, "JOIN #c"), (1, "JOIN #c")], vec![(0, vec!["KICK #c bob :out"]), (2, vec!["JOIN #c"])]));
     v.push(mk("quit-vs-invite", base_cfg(), 3, users3(), vec![], vec![(0, "JOIN #c"), (1, "JOIN #c")], vec![(0, vec!["INVITE carol #c"]), (2, vec!["QUIT"])]));
     v
 }
